@@ -4,7 +4,7 @@ from .stagefam import run_family
 
 def main(argv):
     return run_family(
-        "C03", "C03", argv, "XRBSK",
+        "C03", "C03", argv, "XRBSKL",
         nontrivial=lambda s: s["reached"] == "branches" and s["nblocks"] > s["n"] + 1,
         rule="closed CFGs: all with <=4 nodes, 5-node ones modulo relabelling (sampled in the quick tier), seeded random 6-18 nodes, "
              "std-lib bytecode CFGs; Structured is evaluated by TLC on the final state of every behaviour; non-trivial = the "
